@@ -50,6 +50,10 @@ partial def parseTm : List String → Option (Tm × List String)
     let (p, r) ← parsePrim r
     let (k, r) ← parseTm r
     pure (.prim (num l) p k, r)
+  | "Np" :: l :: a :: m :: rs :: fl :: r => do
+    let (b, r) ← parseTm r
+    let (k, r) ← parseTm r
+    pure (.newp (num l) { arity := num a, minArity := num m, rest := num rs } b (flagsOf fl) k, r)
   | "N" :: l :: fl :: r => do
     let (b, r) ← parseTm r
     let (k, r) ← parseTm r
@@ -126,6 +130,9 @@ partial def showVal : Val → String
   | .kw s => ":" ++ s
   | .fib f => "F" ++ toString f
   | .pair a b => "(" ++ showVal a ++ "," ++ showVal b ++ ")"
+  | .unit => "()"
+  | .single a => "(" ++ showVal a ++ ")"
+  | .estruct => "?struct"
 
 def showSnap (xs : List Nat) : String := String.ofList (xs.map hexd)
 
@@ -147,10 +154,11 @@ def countSteps : Nat → Nat → State → Nat × State
 
 def stepLine (_ : Unit) (toks : List String) : Unit × String :=
   match toks with
-  | "tree" :: fl :: fuel :: r =>
+  | "tree" :: fl :: fuel :: a :: m :: rs :: v :: r =>
     match parseTm r with
     | some (t, []) =>
-      let (n, s) := countSteps (num fuel) 0 (init t (flagsOf fl))
+      let v0 := match parseAtom v with | .lit x => x | _ => .nil
+      let (n, s) := countSteps (num fuel) 0 (initp t (flagsOf fl) { arity := num a, minArity := num m, rest := num rs } v0)
       ((), String.intercalate ";" (s.trace.reverse.map showEvent) ++ " | " ++ showHalt s ++ " | " ++ toString n)
     | _ => ((), "bad-op parse")
   | _ => ((), "bad-op")
